@@ -331,6 +331,7 @@ type lexemeTable struct {
 	sites      int              // token construction sites in the dispatcher
 	dispatcher *ast.FuncDecl
 	problems   []string
+	source     string
 }
 
 // initialFieldFunc resolves the function used as the initial value of struct field fld in a composite literal of
@@ -613,6 +614,19 @@ func (c *Ctx) lexemes() *lexemeTable {
 			walk(cl.Body, string(byte(i)))
 		}
 	}
+	// the table read off the dispatcher's paths (lexpaths.go) is the authority; the syntactic reading above is kept as a
+	// fallback for a dispatcher the walk does not understand
+	alt := &lexemeTable{}
+	if probs := c.lexemesFromOutcomes(alt); len(probs) == 0 {
+		lt.fixed, lt.illegal, lt.strDelims, lt.identType, lt.sites = alt.fixed, alt.illegal, alt.strDelims, alt.identType, alt.sites
+		lt.problems = nil
+		lt.source = "walk of the dispatcher per first byte"
+	} else {
+		lt.source = "syntactic reading of the dispatcher switch (the path walk reported: " + strings.Join(probs, "; ") + ")"
+		if len(lt.problems) > 0 {
+			lt.problems = append(lt.problems, probs...)
+		}
+	}
 	// number scanner result types: constants of token.Type returned by functions of package lexer returning (string, token.Type)
 	for _, f := range c.allFuncDecls("lexer") {
 		if f.Type.Results == nil || len(f.Type.Results.List) != 2 {
@@ -688,7 +702,7 @@ func (lt *lexemeTable) dump(tc *tokConsts) map[string]any {
 		dl[string(d)] = tc.name(v)
 	}
 	sort.Strings(lt.illegal)
-	return map[string]any{"fixed_lexemes": fx, "keywords": kw, "string_delimiters": dl, "illegal": lt.illegal, "identifier_class": lt.identType, "construction_sites": lt.sites}
+	return map[string]any{"fixed_lexemes": fx, "keywords": kw, "string_delimiters": dl, "illegal": lt.illegal, "identifier_class": lt.identType, "construction_sites": lt.sites, "read_by": lt.source}
 }
 
 // ---------------------------------------------------------------------------------------------
@@ -710,6 +724,7 @@ type parserTables struct {
 	prefixFld       *types.Var
 	infixFld        *types.Var
 	precFld         *types.Var
+	precVar         types.Object // the package-level binding-power table
 	problems        []string
 }
 
@@ -732,6 +747,28 @@ func (c *Ctx) parserTables() *parserTables {
 					}
 					cl, ok := vs.Values[i].(*ast.CompositeLit)
 					if !ok {
+						// a map[token.Type]int that is computed rather than written out: not read (fail closed)
+						if tv, has := info.Types[vs.Values[i]]; has {
+							if m, isMap := tv.Type.Underlying().(*types.Map); isMap && namedIs(m.Key(), "token", "Type") {
+								if b, ok := m.Elem().Underlying().(*types.Basic); ok && b.Kind() == types.Int {
+									// assembled from literal data at initialisation: folded (consteval.go)
+									tbl, why := c.foldIntTable("parser", vs.Values[i])
+									if tbl == nil {
+										pt.problems = append(pt.problems, "the package-level binding-power table "+vs.Names[i].Name+" is computed by code that does not fold to a constant table ("+why+"): its entries are not read")
+										continue
+									}
+									if g, _ := c.ssaGlobal("parser", vs.Names[i].Name); g == nil || !globalWrittenOnlyInInit(g) {
+										pt.problems = append(pt.problems, "the package-level binding-power table "+vs.Names[i].Name+" is written after its initialisation")
+										continue
+									}
+									for k, lv := range tbl {
+										pt.prec[k] = lv
+										pt.precPos[k] = vs.Values[i].Pos()
+									}
+									pt.precVar = info.Defs[vs.Names[i]]
+								}
+							}
+						}
 						continue
 					}
 					tv := info.Types[cl]
@@ -742,6 +779,7 @@ func (c *Ctx) parserTables() *parserTables {
 					if b, ok := m.Elem().Underlying().(*types.Basic); !ok || b.Kind() != types.Int {
 						continue
 					}
+					pt.precVar = info.Defs[vs.Names[i]]
 					for _, el := range cl.Elts {
 						kv := el.(*ast.KeyValueExpr)
 						k, ok1 := c.tokConstOf(info, kv.Key)
@@ -806,6 +844,60 @@ func (c *Ctx) parserTables() *parserTables {
 		pt.problems = append(pt.problems, "constructor (function with a Parser composite literal) not found")
 		return pt
 	}
+	// loop variables ranging over a package-level list of token constants: `for _, t := range list { table[t] = m }`
+	// stands for one entry per element
+	rangeKeys := map[types.Object][]int64{}
+	ast.Inspect(pt.ctor.Body, func(n ast.Node) bool {
+		rs, ok := n.(*ast.RangeStmt)
+		if !ok || rs.Value == nil {
+			return true
+		}
+		src, ok := ast.Unparen(rs.X).(*ast.Ident)
+		vid, ok2 := rs.Value.(*ast.Ident)
+		if !ok || !ok2 {
+			return true
+		}
+		gv, isVar := info.ObjectOf(src).(*types.Var)
+		if !isVar || gv.Parent() != p.Types.Scope() {
+			return true
+		}
+		c.buildSSA()
+		g, _ := c.SSA["parser"].Members[src.Name].(*ssa.Global)
+		if g == nil {
+			return true
+		}
+		seq := globalSeqTable(g)
+		if seq == nil {
+			return true
+		}
+		var ks []int64
+		for _, kv := range seq {
+			if kv == nil {
+				return true
+			}
+			n, ok := constant.Int64Val(kv)
+			if !ok {
+				return true
+			}
+			ks = append(ks, n)
+		}
+		// the loop variable must not be reassigned in the body
+		reassigned := false
+		ast.Inspect(rs.Body, func(m ast.Node) bool {
+			if as, ok := m.(*ast.AssignStmt); ok {
+				for _, l := range as.Lhs {
+					if id, ok := l.(*ast.Ident); ok && info.ObjectOf(id) == info.ObjectOf(vid) {
+						reassigned = true
+					}
+				}
+			}
+			return true
+		})
+		if !reassigned {
+			rangeKeys[info.ObjectOf(vid)] = ks
+		}
+		return true
+	})
 	ast.Inspect(pt.ctor.Body, func(n ast.Node) bool {
 		as, ok := n.(*ast.AssignStmt)
 		if !ok || len(as.Lhs) != 1 || len(as.Rhs) != 1 {
@@ -823,8 +915,12 @@ func (c *Ctx) parserTables() *parserTables {
 		if fld != pt.prefixFld && fld != pt.infixFld {
 			return true
 		}
-		k, ok := c.tokConstOf(info, ix.Index)
-		if !ok {
+		var keys []int64
+		if k, ok := c.tokConstOf(info, ix.Index); ok {
+			keys = []int64{k}
+		} else if kid, ok := ast.Unparen(ix.Index).(*ast.Ident); ok && rangeKeys[info.ObjectOf(kid)] != nil {
+			keys = rangeKeys[info.ObjectOf(kid)]
+		} else {
 			pt.problems = append(pt.problems, "table entry with a non-constant key in the constructor")
 			return true
 		}
@@ -842,11 +938,13 @@ func (c *Ctx) parserTables() *parserTables {
 		if fld == pt.infixFld {
 			tbl, nm = pt.infix, "infix"
 		}
-		if _, dup := tbl[k]; dup {
-			pt.problems = append(pt.problems, fmt.Sprintf("%s table key assigned twice", nm))
+		for _, k := range keys {
+			if _, dup := tbl[k]; dup {
+				pt.problems = append(pt.problems, fmt.Sprintf("%s table key assigned twice", nm))
+			}
+			tbl[k] = m
+			pt.entryPos[fmt.Sprintf("%s/%d", nm, k)] = as.Pos()
 		}
-		tbl[k] = m
-		pt.entryPos[fmt.Sprintf("%s/%d", nm, k)] = as.Pos()
 		return true
 	})
 	// (c) statement dispatch
@@ -1274,4 +1372,14 @@ func foldStdCall(call *ssa.Call, get func(ssa.Value) (constant.Value, bool)) (co
 		return constant.MakeInt64(int64(idx)), true
 	}
 	return nil, false
+}
+
+func (c *Ctx) ssaGlobal(pkg, name string) (*ssa.Global, bool) {
+	c.buildSSA()
+	sp := c.SSA[pkg]
+	if sp == nil {
+		return nil, false
+	}
+	g, ok := sp.Members[name].(*ssa.Global)
+	return g, ok
 }
